@@ -236,6 +236,27 @@ package scanner
 //@   ensures [expired-event-records-go-index-and-versions-alike] !native_ttl && w.timeoutRevision != 0 && len(w.eventsPrefix) > 0 && has_prefix(rawKey, events_dir) && ite(revision == 0, be64_of(value) <= w.timeoutRevision, revision <= w.timeoutRevision) ==> isExpired
 //@   ensures [only-at-or-below-the-timeout-revision] isExpired ==> w.timeoutRevision != 0 && ite(revision == 0, be64_of(value) <= w.timeoutRevision, revision <= w.timeoutRevision)
 
+// the queue of compaction marks: push appends the mark as given and touches no mark already recorded
+// (its revision and its time stay what they were when it was pushed)
+//@ ghost cq_pushes Int
+//@ ghost cq_last Iface
+//@ func @container/list.(*List).PushBack(v) (e)
+//@   assumed
+//@   modifies ghost.cq_pushes ghost.cq_last
+//@   ensures [appended] cq_pushes == old(cq_pushes)+1 && cq_last == v
+//@ func (*compactRecordQueue).push(cr)
+//@   props C17
+//@   nosafety
+//@   requires c != nil && c.list != nil
+//@   modifies ghost.cq_pushes ghost.cq_last
+//@   ensures [the-mark-is-appended-as-given] cq_pushes == old(cq_pushes)+1 && typeis(cq_last, "*scanner.compactRecord") && asptr(cq_last, "*scanner.compactRecord") == cr
+//@ func (*scanner).logCompactHistory(revision)
+//@   props C17
+//@   nosafety
+//@   requires r != nil && r.compactHistories != nil && r.compactHistories.list != nil
+//@   modifies inferred:(*scanner).logCompactHistory
+//@   ensures [one-mark-with-this-revision] cq_pushes == old(cq_pushes)+1 && typeis(cq_last, "*scanner.compactRecord") && asptr(cq_last, "*scanner.compactRecord") != nil && asptr(cq_last, "*scanner.compactRecord").revision == revision && fresh(asptr(cq_last, "*scanner.compactRecord"))
+
 // the timeout revision is the revision of a compaction record that was found at least TTL old (or 0):
 // the remembered record changes only to one whose age was just measured and found not below the TTL;
 // engines with native expiry never get a timeout revision
